@@ -365,3 +365,5 @@ for _pid, _what in (("C04", "zero columns / rows of the inner extent of a matrix
                     ("C06", "hidden units and input features whose weights, biases and initial state are zero stay at exactly zero: flagged cases are executed with 1024 hidden units and 512 input features (weight matrices of more than a million elements)")):
     CHECKS[_pid]["text"] += " Zero-padding law (checked by TLC on small paddings): " + _what + "; the results are the expected ones."
     CHECKS[_pid]["technique"] += "; zero-padding law"
+CHECKS["C05"]["text"] += (" Round 17: float64 images and kernels whose products and partial sums need 25..27 significant bits (exact in float64, "
+                          "exact expected values from TLC): an accumulation narrower than the declared type is a violation (MC_C05!WideProductCases).")
